@@ -3,6 +3,7 @@ package main
 // Symbolic executor: calls (builtins, conversions, locks, contracts, inlining, externals).
 
 import (
+	"regexp"
 	"fmt"
 	"go/ast"
 	"go/token"
@@ -111,7 +112,7 @@ func isFatal(fn *types.Func) bool {
 // every call to a callee named f (written in the function under contract itself) in the ghost variable retlog_f.
 func (fr *Frame) evalCall(st *State, call *ast.CallExpr, nWant int) []*Term {
 	rs := fr.evalCall0(st, call, nWant)
-	if fr == fr.top && fr.fc != nil && fr.fc.Options["retlog"] != "" && len(rs) > 0 {
+	if fr.top != nil && fr.fn == fr.top.fn && fr.fc != nil && fr.fc == fr.top.fc && fr.fc.Options["retlog"] != "" && len(rs) > 0 { // the function itself or one of its closures
 		if fn := fr.e.staticCallee(fr.info, call); fn != nil {
 			for _, n := range strings.Fields(fr.fc.Options["retlog"]) {
 				if n == fn.Name() {
@@ -721,6 +722,10 @@ func (fr *Frame) evalSyncCall(st *State, call *ast.CallExpr, fn *types.Func) []*
 		return fr.freshResults(st, sig, "sync")
 	}
 	tn := rt.Obj().Name()
+	if tn == "WaitGroup" {
+		fr.evalWaitGroupCall(st, call, fn)
+		return fr.freshResults(st, sig, "sync")
+	}
 	if tn != "Mutex" && tn != "RWMutex" {
 		if tn == "Once" && fn.Name() == "Do" {
 			fr.unsupported(call, "sync.Once.Do")
@@ -1085,7 +1090,26 @@ func (fr *Frame) applyContract(st *State, fc *FuncContract, fn *types.Func, sig 
 	b = cn.bind(recv, args, results)
 	callerSnaps := st.snaps
 	st.snaps = map[string]*State{} // the callee's at(label, ..) states are not visible here: such clauses are dropped
+	if fr.top.fc != nil && fr.top.fc.Options["constructing"] != "" && recv != nil && old != nil {
+		// the caller runs on an object that is not shared yet (option constructing): nothing changes the object
+		// between the call and the callee's first lock acquisition when that acquisition is the callee's first
+		// statement, so the callee's at(lock1, ..) is the state at the call
+		if fi := e.funcs[fc.Key]; fi != nil && fi.Decl.Body != nil && len(fi.Decl.Body.List) > 0 {
+			if es, ok := fi.Decl.Body.List[0].(*ast.ExprStmt); ok {
+				if ce, ok := es.X.(*ast.CallExpr); ok {
+					if sel, ok := ce.Fun.(*ast.SelectorExpr); ok && (sel.Sel.Name == "Lock" || sel.Sel.Name == "RLock") {
+						if id, ok := sel.X.(*ast.Ident); ok && fi.Decl.Recv != nil && len(fi.Decl.Recv.List) == 1 && len(fi.Decl.Recv.List[0].Names) == 1 && fi.Decl.Recv.List[0].Names[0].Name == id.Name {
+							st.snaps["lock1"] = old
+						}
+					}
+				}
+			}
+		}
+	}
 	for _, c := range fc.Ensures {
+		if localLogRe.MatchString(c.Text) {
+			continue // a clause over the callee's own call/result log says nothing about the caller's log
+		}
 		func() {
 			defer func() {
 				if r := recover(); r != nil {
@@ -1104,6 +1128,9 @@ func (fr *Frame) applyContract(st *State, fc *FuncContract, fn *types.Func, sig 
 	}
 	return results
 }
+
+// localLogRe: names of the function-local ghost logs (option calllog / fvlog / retlog, WaitGroup counters)
+var localLogRe = regexp.MustCompile(`\b(callN|callName|callArg0|callArg1|fvN|fvName|retlog_[A-Za-z0-9_]+|wgcount)\b`)
 
 func heldClause(x *SExpr) (*SExpr, bool) {
 	if x.Kind == "call" && x.Name == "held" && len(x.Args) == 1 {
@@ -1525,4 +1552,86 @@ func isPkgLevelVar(info *types.Info, x ast.Expr) bool {
 	}
 	v, ok := info.Uses[id].(*types.Var)
 	return ok && v.Pkg() != nil && v.Parent() == v.Pkg().Scope()
+}
+
+// ---------------------------------------------------------------------------
+// sync.WaitGroup of the fork/join idiom. `go func(){..}()` is executed in place, so the counter of a WaitGroup that
+// is a local variable of the function under contract (and whose address is not handed out) is tracked exactly:
+// Add(n) adds, Done() needs a positive counter (a negative counter panics) and subtracts one, Wait() needs the
+// counter to be zero - otherwise some Add is never matched by a Done and Wait blocks for ever.
+// The counter is the function-local ghost wg$<name>, `wgcount(<name>)` in loop invariants.
+
+func wgGhostKey(name string) string { return "ghost:wg$" + name }
+
+// wgLocalName: the name of the local WaitGroup variable a call `wg.M(..)` is made on ("" if it is not one).
+func wgLocalName(info *types.Info, call *ast.CallExpr) string {
+	sel, ok := call.Fun.(*ast.SelectorExpr)
+	if !ok {
+		return ""
+	}
+	id, ok := sel.X.(*ast.Ident)
+	if !ok {
+		return ""
+	}
+	v, ok := info.ObjectOf(id).(*types.Var)
+	if !ok || v.IsField() || v.Pkg() == nil || v.Parent() == v.Pkg().Scope() {
+		return ""
+	}
+	if n := namedOf(v.Type()); n == nil || n.Obj().Name() != "WaitGroup" || n.Obj().Pkg() == nil || n.Obj().Pkg().Path() != "sync" {
+		return ""
+	}
+	if _, ptr := v.Type().Underlying().(*types.Pointer); ptr {
+		return ""
+	}
+	return id.Name
+}
+
+// wgAddressTaken: does the function hand out &name (then some other function may call Done: not tracked)?
+func wgAddressTaken(fi *FuncInfo, name string) bool {
+	taken := false
+	ast.Inspect(fi.Decl, func(n ast.Node) bool {
+		if u, ok := n.(*ast.UnaryExpr); ok && u.Op == token.AND {
+			if id, ok := u.X.(*ast.Ident); ok && id.Name == name {
+				taken = true
+			}
+		}
+		return true
+	})
+	return taken
+}
+
+func (fr *Frame) wgCount(st *State, name string) *Term {
+	if v, ok := st.heap[wgGhostKey(name)]; ok {
+		return v
+	}
+	return IntLit(0)
+}
+
+func (fr *Frame) evalWaitGroupCall(st *State, call *ast.CallExpr, fn *types.Func) {
+	e := fr.e
+	for _, a := range call.Args {
+		_ = a
+	}
+	name := wgLocalName(fr.info, call)
+	if name == "" || fr.top == nil || fr.top.fc == nil || fr.fn != fr.top.fn || wgAddressTaken(fr.top.fn, name) {
+		for _, a := range call.Args {
+			fr.evalIgnore(st, a)
+		}
+		if name == "" || fr.top == nil || fr.top.fn == nil || fr.fn != fr.top.fn {
+			return
+		}
+		e.dropped["sync.WaitGroup "+name+" of "+shortKey(fr.top.fn.Key)+": its address is handed out, counter not tracked"] = true
+		return
+	}
+	cur := fr.wgCount(st, name)
+	switch fn.Name() {
+	case "Add":
+		st.heap[wgGhostKey(name)] = Add(cur, fr.eval(st, call.Args[0]))
+	case "Done":
+		e.oblige(fr, st, "wg-balance", name, fr.site("wg", call), Ge(cur, IntLit(1)), call, nil, "WaitGroup "+name+": Done() without a matching Add (negative counter panics)")
+		st.heap[wgGhostKey(name)] = Sub(cur, IntLit(1))
+	case "Wait":
+		e.oblige(fr, st, "wg-balance", name, fr.site("wg", call), Eq(cur, IntLit(0)), call, nil, "WaitGroup "+name+": every Add is matched by the Done of a goroutine started before Wait (otherwise Wait blocks for ever)")
+		st.Assume(Eq(cur, IntLit(0)))
+	}
 }
